@@ -443,6 +443,37 @@ def run(ctx):
             kept.append({"program": prog, "search": sspec, "tag": tag})
     cross_process(ctx, kept)
     caller_names(ctx)
+    pinned_search_fields(ctx)
+
+
+def pinned_search_fields(ctx):
+    """every setting that identified a search at the pinned commit (harness/c07_identifying_fields.json,
+    a committed snapshot, independent of the class attribute the code reads) must still change the identifier"""
+    pinned = json.loads((VERIF / "harness" / "c07_identifying_fields.json").read_text())
+    for name, fields in pinned.items():
+        cls = getattr(af, name)
+        base = cls()
+        for f in fields:
+            d = getattr(base, f, None)
+            if isinstance(d, bool):
+                new = not d
+            elif isinstance(d, int):
+                new = d + 3
+            elif isinstance(d, float):
+                new = d + 0.375
+            elif isinstance(d, str):
+                new = d + "_q"
+            else:
+                continue
+            try:
+                other = cls(**{f: new})
+            except Exception as e:
+                ctx.hit("pinned-field-unsettable")
+                continue
+            ctx.hit("pinned-field-compared")
+            if ident(other) == ident(base):
+                ctx.fail("C07-insensitive-search-field", f"{name}: changing the identifying setting {f} no longer changes the identifier",
+                         {"search": name, "field": f, "value": repr(new)}, {"identifier": ident(base)})
 
 
 def caller_names(ctx):
